@@ -111,7 +111,7 @@ PROPS["C03"] = {
 PROPS["C09"] = {
     "level": "model_checking",
     "technique": "explicit-state BFS to a fixpoint over NMT commands, API mode changes and one probe frame per service, against a reference CiA 301 slave state machine with a per-state gating table",
-    "text": "Node with one of every service (SDO server, asynchronous RPDO, event and synchronous TPDO, SYNC consumer, heartbeat producer and consumer, EMCY, LSS). Alphabet: NMT command specifiers {1,2,128,129,130,0,3,127,255} x target {own id, 0, other, 80h | own id, 80h}; CONmtSetMode, CONodeStart, CONmtReset(node/com), CONodeStop; probe frames for SDO, RPDO, SYNC, heartbeat of a monitored and an unmonitored node, LSS switch/inquire, a foreign identifier, the node's own transmit identifiers and three identifiers that equal a served one (NMT, SDO, RPDO) in their low 11 bits only; COEmcySet/Clr, COTPdoTrigPdo, tick. After every step: node mode, the sequence of mode-change callbacks, the reset-request callback, the number and content of boot-up frames, which service reacted (frames per identifier, mapped object, PDO callback), and how often the frame was handed to the application callback are compared with the reference. The reachable state set is closed (fixpoint) for node ids 1, 5 and 127, started and unstarted. A fifth configuration replaces the heartbeat services by a TPDO that lives on timers (event time 3 ticks, inhibit time 2 ticks, application trigger): its frames may appear only while the reference FSM is OPERATIONAL, whichever timer or trigger path produces them.",
+    "text": "Node with one of every service (SDO server, asynchronous RPDO, event and synchronous TPDO, SYNC consumer, heartbeat producer and consumer, EMCY, LSS). Alphabet: NMT command specifiers {1,2,128,129,130,0,3,127,255} x target {own id, 0, other, 80h | own id, 80h}; LSS switch + configure node-id 7 + store (the node id changes at the next reset: NMT addressing, SDO identifiers, boot-up and heartbeat must follow, the old SDO identifier becomes foreign); CONmtSetMode, CONodeStart, CONmtReset(node/com), CONodeStop; probe frames for SDO, RPDO, SYNC, heartbeat of a monitored and an unmonitored node, LSS switch/inquire, a foreign identifier, the node's own transmit identifiers and three identifiers that equal a served one (NMT, SDO, RPDO) in their low 11 bits only; COEmcySet/Clr, COTPdoTrigPdo, tick. After every step: node mode, the sequence of mode-change callbacks, the reset-request callback, the number and content of boot-up frames, which service reacted (frames per identifier, mapped object, PDO callback), and how often the frame was handed to the application callback are compared with the reference. The reachable state set is closed (fixpoint) for node ids 1, 5 and 127, started and unstarted. A fifth configuration replaces the heartbeat services by a TPDO that lives on timers (event time 3 ticks, inhibit time 2 ticks, application trigger): its frames may appear only while the reference FSM is OPERATIONAL, whichever timer or trigger path produces them.",
     "note": "heartbeat timing is not compared here (C10), only content and at most one per tick; in STOPPED the delivery of unclaimed frames to the application is unconstrained as the statement says; after CONodeStop only safety is judged; NMT frames carry DLC 2",
     "jobs": {
         "quick": [J("c09", c, depth=80, deadline=120) for c in range(5)],
@@ -199,7 +199,7 @@ PROPS["C13"] = {
 PROPS["C14"] = {
     "level": "model_checking",
     "technique": "explicit-state BFS over expedited SDO write histories to the PDO communication and mapping parameters against a reference model of the CiA 301 preconditions, with an activation probe at every activation",
-    "text": "Four RPDOs and four TPDOs; the pair number n under reconfiguration is 0, 1 or 3 (configurations: n x {PRE-OPERATIONAL, started OPERATIONAL}), the three other pairs are valid bystanders on their own identifiers and objects. 94 events: per PDO the COB-ID written with {valid, invalid, other id valid, other id invalid, extended, RTR-allowed/extended}; transmission type {1,254,255}; mapping count {0,1,2,8,9}; mapping entries 1, 2 and 8 written with {mappable 8/16/32-bit object, non-mappable, read-only, write-only, non-existing object, 64-bit length, length != object width}; NMT start / pre-op. Per step: accept/refuse verdict, the abort codes the property set fixes (0609 0030h, 0604 0041h, 0604 0042h), and the complete stored configuration (a refused write changes nothing). At every activation (entering OPERATIONAL, re-validation while OPERATIONAL) the PDO is probed: the TPDO frame has DLC = sum of the mapped bytes <= 8 and carries the mapped values, an RPDO frame writes exactly the mapped objects; public ObjNum/Size[] stay within 8; then, on a copy of the state, 8 ticks pass - a TPDO activated with a synchronous type must stay silent without SYNC, one activated as event-driven (its event time is 2 ms) must send. After an invalidation while OPERATIONAL the PDO must neither transmit on a trigger nor take a frame on its old identifier, and after every COB-ID write and every entry into OPERATIONAL each bystander TPDO must still send exactly its configured frame and each bystander RPDO write exactly its object (index arithmetic 14xxh/16xxh/18xxh/1Axxh + n versus the runtime slot n).",
+    "text": "Four RPDOs and four TPDOs; the pair number n under reconfiguration is 0, 1 or 3 (configurations: n x {PRE-OPERATIONAL, started OPERATIONAL}, plus pair 1 with both PDOs synchronous from the start), the three other pairs are valid bystanders on their own identifiers and objects. 94 events: per PDO the COB-ID written with {valid, invalid, other id valid, other id invalid, extended, RTR-allowed/extended}; transmission type {1,254,255}; mapping count {0,1,2,8,9}; mapping entries 1, 2 and 8 written with {mappable 8/16/32-bit object, non-mappable, read-only, write-only, non-existing object, 64-bit length, length != object width}; NMT start / pre-op. Per step: accept/refuse verdict, the abort codes the property set fixes (0609 0030h, 0604 0041h, 0604 0042h), and the complete stored configuration (a refused write changes nothing). At every activation (entering OPERATIONAL, re-validation while OPERATIONAL) the PDO is probed: the TPDO frame has DLC = sum of the mapped bytes <= 8 and carries the mapped values, an RPDO frame writes exactly the mapped objects; public ObjNum/Size[] stay within 8; then, on a copy of the state, 8 ticks pass - a TPDO activated with a synchronous type must stay silent without SYNC, one activated as event-driven (its event time is 2 ms) must send, and a SYNC must produce exactly one frame of a type-1 TPDO (also after every COB-ID write of the RPDO with the same number: they share the SYNC table). After an invalidation while OPERATIONAL the PDO must neither transmit on a trigger nor take a frame on its old identifier, and after every COB-ID write and every entry into OPERATIONAL each bystander TPDO must still send exactly its configured frame and each bystander RPDO write exactly its object (index arithmetic 14xxh/16xxh/18xxh/1Axxh + n versus the runtime slot n).",
     "note": "verdicts the statement leaves open are accepted either way: invalidating and changing the id in one write, rewriting the identical valid COB-ID, a count that covers an unset (zero) entry, mapping lengths that differ from the object width; the abort code is free for 'PDO is valid' / 'count is not zero' refusals; depth-bounded",
     "jobs": {
         "quick": [J("c14", c, depth=6, deadline=100) for c in range(8)],
